@@ -71,6 +71,7 @@ class SeqRun(object):
         self.cur_op_desc = ''
         self.trace = []
         self.op_calls = []
+        self.key_conflict_reported = False
 
     # ------------------------------------------------------------------ infrastructure
     def viol(self, prop, sub, shape, detail):
@@ -222,6 +223,11 @@ class SeqRun(object):
         if diffs:
             self.viol(prop, sub, when, 'database differs from the state the program %s: %s'
                       % ('committed' if 'commit' in when else 'had committed before', '; '.join(diffs[:4])))
+            if self.key_conflict_reported and 'commit' not in when:
+                # C14: a conflict found at flush time leaves the database unchanged for that session
+                self.viol('C14', 'conflict-at-flush-left-changes', when,
+                          'the flush reported a key conflict, yet the database differs from the previously committed '
+                          'state: %s' % '; '.join(diffs[:4]))
         if fk:
             self.viol('C15', 'dangling-reference', when, 'PRAGMA foreign_key_check reports %r' % (fk[:3],))
         dups = self._dup_keys_in_dump(got_e)
